@@ -51,18 +51,20 @@ theorem sleeping_other (s s' : St) (i j : Nat) (hn : s'.n = s.n) (hji : j ≠ i)
 and (for `notify`) the receiver's registration -/
 theorem inv_sender_local (s s' : St) (i : Nat) (h : Inv s) (hi : i < s.n) (hn : s'.n = s.n) (hcap : s'.cap = s.cap)
     (ho : ∀ j, j < s.n → j ≠ i → s'.spc j = s.spc j ∧ s'.inset j = s.inset j) (hrpc : s'.rpc = s.rpc)
+    (hcpc : s'.cpc = s.cpc) (hclosed : s'.closed = s.closed)
     (hocc : s'.occ ≤ s'.cap) (hmsgs : s'.msgs + s.occ ≤ s.msgs + s'.occ)
     (hni : (s'.spc i = .idle ∨ s'.spc i = .try1 ∨ s'.spc i = .ins ∨ s'.spc i = .notifyRecv) → s'.inset i = false)
     -- the balance of the senders' side
-    (hs : (Sleeping s' i → s'.occ = s'.cap) ∧
-      (s.occ + holder (s.spc i) (s.inset i) ≤ s'.occ + holder (s'.spc i) (s'.inset i) ∨ s'.occ = s'.cap))
+    (hs : (Sleeping s' i → (Sleeping s i ∨ s.closed = false) ∧ s'.occ = s'.cap) ∧
+      (s.occ + holder (s.spc i) (s.inset i) ≤ s'.occ + holder (s'.spc i) (s'.inset i) ∨ s'.occ = s'.cap ∨
+        s'.cpc = true ∨ (s'.closed = true ∧ s'.cpc = false)))
     -- the balance of the receiver's side
     (hr : (s'.rreg = true → s.rreg = true) ∧
       (s'.rreg = true → s'.msgs + pusher (s.spc i) ≤ s.msgs + pusher (s'.spc i))) : Inv s' := by
   have hH := holders_upd1 s s' i hi hn ho
   have hP := pushers_upd1 s s' i hi hn (fun j hj hji => (ho j hj hji).1)
   have hbor : rborrow s' = rborrow s := by unfold rborrow; rw [hrpc]
-  refine ⟨hocc, by have := h.msgsLe; omega, ?_, ?_, ?_⟩
+  refine ⟨hocc, by have := h.msgsLe; omega, ?_, ?_, ?_, by rw [hcpc, hclosed]; exact h.cpcClosed, ?_⟩
   · intro j hj hp
     rw [hn] at hj
     by_cases hji : j = i
@@ -70,17 +72,31 @@ theorem inv_sender_local (s s' : St) (i : Nat) (h : Inv s) (hi : i < s.n) (hn : 
     · rw [(ho j hj hji).1] at hp; rw [(ho j hj hji).2]; exact h.notInset j hj hp
   · rintro ⟨j, hsl⟩
     have hrt : rtoken s' = rtoken s := by unfold rtoken; rw [hrpc]
+    have hct : ctoken s' = ctoken s := by unfold ctoken; rw [hcpc, hcap]
     by_cases hji : j = i
     · subst hji
-      have := hs.1 hsl
+      have := (hs.1 hsl).2
       omega
     · have := h.senders ⟨j, sleeping_other s s' i j hn hji ho hsl⟩
-      rcases hs.2 with h2 | h2
-      · rw [hcap, hrt]; omega
+      rcases hs.2 with h2 | h2 | h2 | ⟨h2, h3⟩
+      · rw [hcap, hrt, hct]; omega
       · omega
+      · have : ctoken s' = s'.cap := by unfold ctoken; rw [h2]; rfl
+        omega
+      · rw [hclosed] at h2; rw [hcpc] at h3
+        exact absurd (sleeping_other s s' i j hn hji ho hsl) (h.noSleepAfterClose h2 h3 j)
   · rintro ⟨hp, hreg⟩
     have := h.receiver ⟨by rw [← hrpc]; exact hp, hr.1 hreg⟩
     have := hr.2 hreg
     omega
+
+  · intro hcl hcp j hsl
+    rw [hclosed] at hcl; rw [hcpc] at hcp
+    by_cases hji : j = i
+    · subst hji
+      rcases (hs.1 hsl).1 with a | a
+      · exact h.noSleepAfterClose hcl hcp j a
+      · rw [hcl] at a; cases a
+    · exact h.noSleepAfterClose hcl hcp j (sleeping_other s s' i j hn hji ho hsl)
 
 end NexoVerif.Chan
